@@ -17,6 +17,9 @@ import (
 )
 
 func init() {
+	mutant(&Mutant{Name: "c05-path-data-with-references-parsed", Property: "C05", File: "svg/svg.go",
+		Old: " else if attr == D && bytes.IndexByte(val, '&') == -1 {", New: " else if attr == D {",
+		Rule: "R05.22", Construct: "without character references"})
 	register(&Property{
 		ID:    "C05",
 		Level: "other",
@@ -112,6 +115,7 @@ func runC05(c *Ctx) {
 	c.r0518(pk)
 	c.r0519(pk, "R05.19")
 	c.r0520(pk)
+	c.r0522(pk)
 	// the same escaper as in the XML minifier: SVG is XML
 	c.r069("R05.21", "svg")
 	// Inline decides whether the root element keeps its xmlns: it is a per-call fact and must not be written
@@ -1762,4 +1766,43 @@ func (c *Ctx) r0520(pk *packages.Package) {
 		c.R.Check(positive, rule, fmt.Sprintf("svg.Minifier.Minify/whole attribute value shortened as a number#%d only for numeric attributes", n), c.pos(a), "behind a positive test of the attribute", "every attribute whose value looks like a number is rewritten as one, except the listed exclusions: `<text font-family=\"007\">` → `font-family=\"7\"`, `<glyph unicode=\"1.0\">` → `unicode=\"1\"`, `<a target=\"1.0\">` → `target=\"1\"`")
 	}
 	c.R.Floor(rule, "whole-value number shortenings", n, 1)
+}
+
+// R05.22: path data with character references is not handed to the path parser.
+func (c *Ctx) r0522(pk *packages.Package) {
+	const rule = "R05.22"
+	c.R.Rule(rule, "the XML lexer returns attribute values with their character references undecoded, and svg.(*Minifier).Minify does not decode them. The path data parser reads `&#13;` (a carriage return, white space in path data) as the number 13 and drops what it cannot parse: `d=\"M0 0&#13;L10 10\"` → `d=\"L10 10\"`. Every call of ShortenPathData in Minify is dominated by a test of the value for the byte '&' (the rewrite is skipped for such values)")
+	info := pk.TypesInfo
+	fd := c.fn(rule, pk, "Minifier.Minify")
+	if fd == nil {
+		return
+	}
+	g := c.graph(pk, fd)
+	n := 0
+	for _, y := range g.Nodes {
+		a := y.Ast()
+		if a == nil || y.Kind != flow.KStmt {
+			continue
+		}
+		for _, call := range findCalls(info, a, false, load.Mod+"/svg.(PathData).ShortenPathData") {
+			if len(call.Args) != 1 {
+				continue
+			}
+			n++
+			arg := nospace(str(call.Args[0]))
+			good := false
+			for _, f := range g.DomFacts(y) {
+				if f.Test.Kind != flow.KCond {
+					continue
+				}
+				chars, strs, _ := c.constsIn(pk, f.Test.Expr)
+				if (chars['&'] || strs["&"]) && strings.Contains(nospace(str(f.Test.Expr)), arg) {
+					good = true
+				}
+			}
+			c.R.Check(good, rule, fmt.Sprintf("svg.Minifier.Minify/path data#%d without character references", n), c.pos(call), "behind a test of "+arg+" for '&'",
+				"the path data is parsed although it may contain character references, which are not decoded: the digits of `&#13;` are read as a coordinate and the commands in front of it are lost")
+		}
+	}
+	c.R.Floor(rule, "calls of ShortenPathData in Minify", n, 1)
 }
